@@ -243,6 +243,7 @@ class UnitResult:
         self.unknown_forks = 0
         self.unconfirmed_models = 0
         self.solver_rebuilds = 0
+        self.loop_headers_seen = {}
         self.by_backend = {}
         self.cross_stats = {}
         self.witnesses = []
@@ -340,6 +341,7 @@ def run_unit(unit):
         res.unknown_forks = ex.unknown_forks
         res.unconfirmed_models = getattr(ex, "unconfirmed_models", 0)
         res.solver_rebuilds = ex.solver_rebuilds
+        res.loop_headers_seen = dict(interp.loop_headers_seen)
         res.by_backend = dict(ex.by_backend)
         res.cross_stats = dict(ex.cross_stats)
         res.witnesses = list(ex.witnesses)
